@@ -36,6 +36,7 @@ def dispatch (line : String) : String :=
     | "c05big" => c05bigOp args
     | "c19" => c19Op args
     | "c04" => c04Op args
+    | "c11rw" => "rw=raw"   -- a file opened read-write is passed through as stored (FS.OpenFile: modifying open, no wrapper)
     | "c20race" => "race=intact exit=error"   -- a file that appears between the tool's check and its open survives
     | "c18x" => "again=same"   -- C18 on wide timestamps: the image is a function of the tree alone
     | "c13end" => c13endOp args
